@@ -49,7 +49,7 @@ BOUNDS = (
 OUTSIDE = (
     "truncated / corrupted byte strings and everything the Arrow C++ reader decides (framing, column types); the dispatch half of serve_one "
     "after _read_request (method lookup, parameter validation: C06/C04); external-location pointer requests; real POSIX shm semantics beyond "
-    "the attach contract (replays stage every attach outcome with real POSIX segments except PermissionError, which cannot be provoked as root); whether ending the connection on ArrowInvalid from a shm region (answered) is acceptable is taken from the property text"
+    "the attach contract; segment CONTENTS (a pointer may name any bytes: modelled as decode ok | ArrowInvalid | OSError | StopIteration) (replays stage every attach outcome with real POSIX segments except PermissionError, which cannot be provoked as root); whether ending the connection on ArrowInvalid from a shm region (answered) is acceptable is taken from the property text"
 )
 ASSUMPTIONS = [
     "int(<bytes>) := returns some int or raises ValueError; int(None) raises TypeError (C-level parser; CrossHair realises int(symbolic bytes))",
@@ -159,13 +159,13 @@ class _Reader:
 
     def read_next_batch_with_custom_metadata(self) -> tuple[_Batch, object]:
         self.n += 1
-        if self.n > 1:
-            raise StopIteration
+        if self.n > 1 or _H.get("no_batch"):
+            raise StopIteration  # a well-framed stream may hold schema + EOS and no batch at all
         return _H["batch"], _H["md"]
 
     def read_next_batch(self) -> _Batch:
         self.n += 1
-        if self.n > 1:
+        if self.n > 1 or _H.get("no_batch"):
             raise StopIteration
         return _H["batch"]
 
@@ -184,10 +184,11 @@ class _Seg:
 
     name = "seg"
 
-    def __init__(self, free_raises: bool = False) -> None:
+    def __init__(self, free_raises: bool = False, size: int = 0) -> None:
         self.freed: list[object] = []
         self.closed = 0
         self.free_raises = free_raises
+        self.size = size
 
     def read_buffer(self, offset: int, length: int) -> tuple:
         return ("region", offset, length)
@@ -206,6 +207,11 @@ class _Seg:
 
 def _deser_stub(buf: object, schema: object) -> _Batch:
     if not _H["decode_ok"]:
+        k = _H.get("decode_fail", 0)
+        if k == 1:
+            raise OSError("Invalid IPC stream: negative continuation token")  # observed on garbage regions
+        if k == 2:
+            raise StopIteration  # the region holds a stream with no batch: read_next_batch()
         raise pa.ArrowInvalid("Invalid IPC stream")
     return _Batch(len(schema), _H["resolved_rows"])  # type: ignore[arg-type]
 
@@ -256,7 +262,11 @@ class _Conn:
         self.segment = segment
         self.name = name
 
-    refresh = reglobalize(srv._ConnectionShm.refresh, _maybe_attach_shm=_maybe_attach)
+    refresh = reglobalize(
+        srv._ConnectionShm.refresh,
+        _maybe_attach_shm=_maybe_attach,
+        **({"int": _int_contract} if "int" in srv._ConnectionShm.refresh.__code__.co_names else {}),
+    )
     close = srv._ConnectionShm.close
 
 
@@ -315,8 +325,12 @@ def _request_bytes(extra: dict[bytes, bytes] | None, nrows: int, ncols: int, non
     return sink.getvalue().to_pybytes()
 
 
-def _serve_and_observe(extra_md: dict[bytes, bytes], rows: int, ncols: int = 2, static_region: str | None = None, md_none: bool = False, expect_survive: bool = True) -> str | None:
+def _serve_and_observe(extra_md: dict[bytes, bytes], rows: int, ncols: int = 2, static_region: str | None = None, md_none: bool = False, expect_survive: bool = True,
+                       prelude: list | None = None, raw_request: bytes | None = None) -> str | None:
     """Send one crafted request to a real RpcServer.serve() over os.pipe()s, then a normal call.
+
+    *prelude*: metadata dicts of ordinary one-row calls sent (and required to be answered) first, on the
+    same connection — the earlier part of a request history.  *raw_request*: the crafted request's bytes.
 
     Returns a description when the server neither answers nor keeps serving (silent death / hang).
     """
@@ -385,7 +399,12 @@ def _serve_and_observe(extra_md: dict[bytes, bytes], rows: int, ncols: int = 2, 
                     break
             return n
 
-        client_t.writer.write(request(extra_md, rows, md_none))
+        for pmd in prelude or []:
+            client_t.writer.write(_request_bytes(pmd, 1, 2))
+            client_t.writer.flush()
+            if not reply(3.0):
+                return None  # the history itself is not served on this tree: not this scenario
+        client_t.writer.write(raw_request if raw_request is not None else request(extra_md, rows, md_none))
         client_t.writer.flush()
         first = reply(3.0)
         second = None
@@ -569,6 +588,7 @@ def read_request_shm_pointer(has_off: bool, off_ok: bool, off: int, has_len: boo
                              decode_ok: bool, resolved_rows: int, free_raises: bool) -> bool:
     """
     pre: 0 <= rows <= 3 and 0 <= ncols <= 2 and 0 <= resolved_rows <= 3
+    pre: decode_ok
     post: _
     """
     _reset()
@@ -593,6 +613,94 @@ def read_request_shm_pointer(has_off: bool, off_ok: bool, off: int, has_len: boo
         return not decode_ok
     # the static segment is caller-owned: never closed by the request path
     return seg.closed == 0 and len(seg.freed) <= 1
+
+
+# ---------------------------------------------------------------------------
+# (3b) shm pointer whose numbers point at bytes that are not a batch; (3c) a request stream with no batch
+# ---------------------------------------------------------------------------
+
+
+def _replay_garbage_pointer(a: dict) -> str | None:
+    """Well-framed pointer request whose offset/length name bytes that do not decode, against a real static segment."""
+    good = {md.RPC_METHOD_KEY: b"add", md.REQUEST_VERSION_KEY: md.REQUEST_VERSION}
+    tried = []
+    off, ln = int(a.get("off", 0)), int(a.get("length", 0))
+    for o, n in ((off, ln), (shm_mod.HEADER_SIZE + 4464, 10), (10**9, 10), (-5, 3), (shm_mod.HEADER_SIZE, 0)):
+        if abs(o) > 10**15 or abs(n) > 10**15 or (o, n) in tried:
+            continue
+        tried.append((o, n))
+        m = dict(good)
+        m[md.SHM_OFFSET_KEY], m[md.SHM_LENGTH_KEY] = str(o).encode(), str(n).encode()
+        dead = _serve_and_observe(m, 0, 2, static_region="none")
+        if dead:
+            return dead
+    return None
+
+
+@cond(q=60, t=240, stubs=[_STUB_READER, _STUB_INT, _STUB_RESOLVE + "; decode failure := pa.ArrowInvalid | OSError | StopIteration"],
+      encoded=[wire._read_request, shm_mod.resolve_shm_batch], replay=_replay_garbage_pointer,
+      bound="valid method/version; pointer request with any int offset/length whose region does not decode (ArrowInvalid | OSError | StopIteration); static/cached or per-request segment; free ok | ValueError",
+      signature=lambda args, conc: "C05:shm-pointer:undecodable-region-ends-connection")
+def read_request_shm_pointer_garbage_region(off: int, length: int, fail_kind: int, owned: bool, free_raises: bool, ncols: int) -> bool:
+    """
+    pre: 0 <= fail_kind <= 2 and 0 <= ncols <= 2
+    post: _
+    """
+    _reset()
+    _H["batch"] = _Batch(ncols, 0)
+    _H["decode_ok"] = False
+    _H["decode_fail"] = fail_kind
+    _H["resolved_rows"] = 1
+    _H["md"] = _MD([
+        _entry("method", True, b"add"), _entry("version", True, md.REQUEST_VERSION),
+        _entry("off", True, _Num(True, off)), _entry("len", True, _Num(True, length)),
+    ], False)
+    seg = _Seg(free_raises)
+    try:
+        if owned:
+            _read_request(object(), attach_shm=lambda _m: seg)
+        else:
+            _read_request(object(), shm=seg)
+    except (RpcError, VersionError):
+        # the request stream itself was valid IPC and has been drained: a typed answer, the connection goes on
+        return seg.closed == (1 if owned else 0) and len(seg.freed) <= 1
+    except Exception:  # noqa: BLE001
+        return False  # incl. ArrowInvalid / StopIteration: both END the serve loop (the latter without any reply)
+    return False  # an undecodable region cannot yield a request
+
+
+def _replay_empty_stream(a: dict) -> str | None:
+    from vgi_rpc.utils import new_ipc_stream
+
+    _fields, schema = _req_schema(int(a.get("ncols", 2)))
+    sink = pa.BufferOutputStream()
+    with new_ipc_stream(sink, schema):
+        pass  # schema message + EOS, no batch
+    return _serve_and_observe({}, 0, 2, raw_request=sink.getvalue().to_pybytes())
+
+
+@cond(q=30, t=60, stubs=[_STUB_READER + "; or no batch at all (schema + EOS)"], encoded=[wire._read_request], replay=_replay_empty_stream,
+      bound="a well-framed request stream holding zero batches; 0..2 columns",
+      signature=lambda args, conc: "C05:empty-request-stream:silent-loop-end")
+def read_request_empty_stream(ncols: int, with_attach: bool) -> bool:
+    """
+    pre: 0 <= ncols <= 2
+    post: _
+    """
+    _reset()
+    _H["no_batch"] = True
+    _H["batch"] = _Batch(ncols, 0)
+    _H["md"] = None
+    try:
+        if with_attach:
+            _read_request(object(), attach_shm=lambda m: _maybe_attach(m, TransportKind.PIPE))
+        else:
+            _read_request(object())
+    except (RpcError, VersionError):
+        return True
+    except Exception:  # noqa: BLE001
+        return False  # StopIteration is in the serve loop's silent break list: no reply, connection gone
+    return False
 
 
 # ---------------------------------------------------------------------------
@@ -707,6 +815,37 @@ def _replay_refresh(a: dict) -> str | None:
         return dead
     if a.get("md_none") or not a.get("has_name"):
         return None
+    if a.get("cached"):
+        # two-request history on one connection: request 1 advertises a real segment (gets cached), request 2 is an
+        # ordinary call naming the same segment (same-name case) or another one, with the counterexample's size value
+        good = {md.RPC_METHOD_KEY: b"add", md.REQUEST_VERSION_KEY: md.REQUEST_VERSION}
+        first = shm_mod.ShmSegment.create(shm_mod.HEADER_SIZE + 65536)
+        other = shm_mod.ShmSegment.create(shm_mod.HEADER_SIZE + 131072)
+        try:
+            same = bytes(a["cached_name"]) == bytes(a["name"])
+            target = first if same else other
+            m1 = dict(good)
+            m1[md.SHM_SEGMENT_NAME_KEY], m1[md.SHM_SEGMENT_SIZE_KEY] = first.name.encode(), str(first.size).encode()
+            m2 = dict(good)
+            m2[md.SHM_SEGMENT_NAME_KEY] = target.name.encode()
+            if a.get("has_size"):
+                sizes = [str(int(a["size"])).encode()] if a.get("size_ok") else [b"abc", b"", b"12.5", b"\xff"]
+            else:
+                sizes = [None]
+            for sz in sizes:
+                m2v = dict(m2)
+                if sz is not None:
+                    m2v[md.SHM_SEGMENT_SIZE_KEY] = sz
+                dead = _serve_and_observe(m2v, 1, 2, prelude=[m1])
+                if dead:
+                    return "after an earlier request cached segment %r on this connection: %s" % (first.name, dead)
+        finally:
+            for sg in (first, other):
+                try:
+                    sg.close()
+                    sg.unlink()
+                except Exception:  # noqa: BLE001
+                    pass
     owner_old = shm_mod.ShmSegment.create(shm_mod.HEADER_SIZE + 65536)
     owner_new = shm_mod.ShmSegment.create(shm_mod.HEADER_SIZE + 65536)
     conn = srv._ConnectionShm()
@@ -751,16 +890,20 @@ def _replay_refresh(a: dict) -> str | None:
 
 
 @cond(q=60, t=240, stubs=[_STUB_INT, _STUB_ATTACH], encoded=[srv._ConnectionShm.refresh, srv._maybe_attach_shm], replay=_replay_refresh,
-      bound="cache empty | holding a segment under a name (bytes len<=3); request metadata as in maybe_attach_never_raises; PIPE/UNIX",
+      bound="history on one connection as an arbitrary cache pre-state (empty | segment of any size cached under a name, bytes len<=3) x next request naming the same / another / no segment with size absent | malformed | any int; PIPE/UNIX",
       signature=lambda args, conc: "C05:attach:exception-escapes")
-def refresh_never_raises(md_none: bool, has_name: bool, name: bytes, has_size: bool, size_ok: bool, size: int, unix: bool, attach: int, cached: bool, cached_name: bytes) -> bool:
+def refresh_never_raises(md_none: bool, has_name: bool, name: bytes, has_size: bool, size_ok: bool, size: int, unix: bool, attach: int, cached: bool, cached_name: bytes,
+                         cached_size: int = 0) -> bool:
     """
     pre: len(name) <= 3 and len(cached_name) <= 3 and 0 <= attach <= 5
     post: _
     """
+    # The cache pre-state (empty | a segment of any size cached under any name by an earlier request)
+    # is the inductive form of a request history on one connection: this call is "the next request",
+    # naming the same or another segment with a well-formed or malformed size.
     _reset()
     _H["attach"] = attach
-    old = _Seg() if cached else None
+    old = _Seg(size=cached_size) if cached else None
     conn = _Conn(old, cached_name if cached else None)
     m = None if md_none else _MD([_entry("seg_name", has_name, name), _entry("seg_size", has_size, _Num(size_ok, size))], False)
     try:
